@@ -35,6 +35,8 @@ CLAIMS.update({
                 design="DESIGN.md section 5 C17"),
     "C18": dict(technique="static analysis: interprocedural may-depend (must-depend queries per XOF binding), absorption-shape and guard-relation rules over MIR",
                 design="DESIGN.md section 5 C18"),
+    "C11": dict(technique="static analysis: absorption-shape, loop-range/offset term matching modulo normalisation, ordering-by-dominance (advance-before-classify, refill order), guard-relation and constant (mask = 2^bitlen(p)-1) rules over MIR",
+                design="DESIGN.md section 5 C11"),
     "C19": dict(technique="static analysis: guard-relation/dominance, decision-table and sibling-agreement (shared layout expression) rules over MIR",
                 design="DESIGN.md section 5 C19"),
     "C20": dict(technique="static analysis: predicate-shape extraction (guard relations, quantifier form, closure bodies) and who-may-construct over MIR",
